@@ -64,13 +64,21 @@ impl<T: Debug + Clone + Ord + 'static> BooleanFunction<T> for Expression<T> {
     }
 
     fn existential_quantification(&self, variables: BTreeSet<T>) -> Self {
-        self.restrict(&btreeset_to_valuation(variables.clone(), false))
-            | self.restrict(&btreeset_to_valuation(variables, true))
+        // eliminate the variables one at a time: F := F[v=0] | F[v=1]
+        variables.into_iter().fold(self.clone(), |acc, variable| {
+            let variable = BTreeSet::from([variable]);
+            acc.restrict(&btreeset_to_valuation(variable.clone(), false))
+                | acc.restrict(&btreeset_to_valuation(variable, true))
+        })
     }
 
     fn universal_quantification(&self, variables: BTreeSet<T>) -> Self {
-        self.restrict(&btreeset_to_valuation(variables.clone(), false))
-            & self.restrict(&btreeset_to_valuation(variables, true))
+        // eliminate the variables one at a time: F := F[v=0] & F[v=1]
+        variables.into_iter().fold(self.clone(), |acc, variable| {
+            let variable = BTreeSet::from([variable]);
+            acc.restrict(&btreeset_to_valuation(variable.clone(), false))
+                & acc.restrict(&btreeset_to_valuation(variable, true))
+        })
     }
 
     fn derivative(&self, variables: BTreeSet<T>) -> Self {
